@@ -1,6 +1,6 @@
 """admin/certificate_v1.py: structural parse (C16) and chain validation (C06) of version-1 (Ledger) certificates."""
 from .common import *
-from spec.certs import NAMES, elements_wf, target_ok, link_ok, verdict_of, results_wf, has_verdict, value_of, element_wf, ROOT_PUBKEY
+from spec.certs import no_tweak, NAMES, elements_wf, target_ok, link_ok, verdict_of, results_wf, has_verdict, value_of, element_wf, ROOT_PUBKEY
 
 ELEM = OBJ("admin.certificate_v1:HSMCertificateElement", _name=STR_, _signed_by=JSON_, _tweak=JSON_,
            _message=STR_, _signature=STR_)
@@ -44,6 +44,7 @@ class Parse(Contract):
     pure = True
     exception_serves = ("C16",)
     max_paths = 30000
+    inline_callees = ("HSMCertificateElement.__init__",)     # items of a hostile "elements" value need not be JSON objects
     loop_modifies_self = {0: dict(_elements=ELEMENTS)}
     unwind = {2: 5}          # a path visits distinct names: the 5th iteration can only raise (obligation `unwind`)
 
@@ -129,11 +130,13 @@ class ElementInit(Contract):
     params = dict(element_map=JSON_)
     pure = True
     exception_serves = ()
+    modifies_self = dict(_name=JSON_, _signed_by=JSON_, _tweak=JSON_, _message=JSON_, _signature=JSON_)
 
     def reads_back_every_field(self, element_map):
         return (same_json(self._name, element_map["name"]) and same_json(self._message, element_map["message"])
                 and same_json(self._signature, element_map["signature"]) and same_json(self._signed_by, element_map["signed_by"])
-                and (same_json(self._tweak, element_map["tweak"]) if jhas(element_map, "tweak") else is_none(self._tweak)))
+                and implies(jhas(element_map, "tweak"), same_json(self._tweak, element_map["tweak"]))
+                and implies(not jhas(element_map, "tweak"), no_tweak(self._tweak)))
     def constructed(self): return element_wf(self)
     ensures = [reads_back_every_field, constructed]
     raises = {"Exception": Exc()}
